@@ -331,8 +331,22 @@ pub fn bfs<M: Model>(m: &M, limits: &Limits) -> Stats {
 }
 
 /// Runs a model, folds its statistics, samples and violations into the report.
+extern "C" {
+    fn malloc_trim(pad: usize) -> i32;
+}
+
+/// Hands freed heap pages back to the OS. The resident-set cap is process-wide; without this
+/// the memory a finished model has freed (but glibc keeps) counts against the next model.
+pub fn trim_heap() {
+    unsafe {
+        malloc_trim(0);
+    }
+}
+
 pub fn run_into<M: Model>(m: &M, limits: &Limits, report: &mut crate::Report) -> Stats {
+    trim_heap();
     let st = bfs(m, limits);
+    trim_heap();
     report.add_count("states", st.states);
     report.add_count("transitions", st.transitions);
     // every transition was executed on the real implementation
